@@ -490,7 +490,18 @@ func runCase(run *lib.Run, c int64, base string) {
 	os.MkdirAll(dir, 0755)
 	defer lib.RemoveLater(dir)
 	run.Eval()
-	net, err := sim.NewNet(sim.Config{Powers: powers, Real: real, Dir: dir, Label: "c07"})
+	cfg := sim.Config{Powers: powers, Real: real, Dir: dir, Label: "c07"}
+	switch c % 4 {
+	case 2:
+		// the product's default part size with blocks of about 60 KB: one part, WAL records of > 100 KB
+		cfg.PartSize, cfg.TxBytes = 65536, 30000
+		run.Count("cases_with_large_single_part_blocks", 1)
+	case 3:
+		// blocks of several 4 KiB parts
+		cfg.PartSize, cfg.TxBytes = 4096, 5000
+		run.Count("cases_with_multi_part_blocks", 1)
+	}
+	net, err := sim.NewNet(cfg)
 	if err != nil {
 		run.Inconclusive(fmt.Sprintf("case %d: %v", c, err))
 		return
